@@ -197,7 +197,11 @@ func evalSigInline(t *sigen.T) (fails []failure) {
 		}
 	}
 	var g reflect.Type
-	if call("Type()", func() { g = typ.Type() }) {
+	// a struct naming two members identically has no Go representation to
+	// be consistent with: Type() is not judged on it
+	if t.HasIdenticalMembers() {
+		// nothing
+	} else if call("Type()", func() { g = typ.Type() }) {
 		var d string
 		if call("Type()", func() { d = matchGo(t, g, "T") }) && d != "" {
 			fails = append(fails, failure{"Type()", "kind-tree-differs", "", "", d})
@@ -701,10 +705,11 @@ func main() {
 	}
 	if tier == "thorough" {
 		g3 := sigen.Default(2)
+		g3.Inner = "ism"
 		g3.Deepest = "is"
-		g3.RootPairShallow = 1
-		runFam("gen:Sig(3,2)-restricted", "all signatures of depth <= 3, width 0..2; leaves at distance <= 1 over "+sigen.AllAtoms+", at distance 2 over isbmC, at distance 3 over is; "+
-			"in a map, 2-tuple or 2-struct AT THE ROOT at most one component is deeper than 1",
+		g3.RootPairShallow = 0
+		runFam("gen:Sig(3,2)-restricted", "all signatures of depth <= 3, width 0..2; leaves at distance <= 1 over "+sigen.AllAtoms+", at distance 2 over ism, at distance 3 over is; "+
+			"in a map, 2-tuple or 2-struct AT THE ROOT at most one component is not an atom",
 			func(emit func(kase) bool) {
 				stop := false
 				g3.Each(3, func(t *sigen.T) {
@@ -714,8 +719,9 @@ func main() {
 				})
 			})
 		gw := sigen.Default(3)
+		gw.Inner = "ism"
 		gw.RootPairShallow = 0
-		runFam("gen:Sig(2,3)-restricted", "all signatures of depth <= 2, width 0..3; leaves at distance <= 1 over "+sigen.AllAtoms+", deeper over isbmC; "+
+		runFam("gen:Sig(2,3)-restricted", "all signatures of depth <= 2, width 0..3; leaves at distance <= 1 over "+sigen.AllAtoms+", deeper over ism; "+
 			"in a product AT THE ROOT at most one component is not an atom",
 			func(emit func(kase) bool) {
 				stop := false
@@ -844,7 +850,7 @@ func main() {
 	}
 	assumptions := []string{
 		"small-scope hypothesis: printer/parser drift shows on signatures of depth <= 2 (3 in thorough) and width <= 2 (3)",
-		"the Go representation of m, o, X and v is not fixed by the property: any non-nil reflect.Type is accepted for them; member names of Go structs are not compared",
+		"the Go representation of m, o, X and v is not fixed by the property: any non-nil reflect.Type is accepted for them; member names of Go structs are not compared; Type() is not judged on a struct that names two members identically",
 		"sigen (own AST, printers, recogniser) is the reference; the IDL spellings int8..uint64/float32/float64/bool/str/any/obj/unknown/nothing/Vec<>/Map<,>/Tuple<> are taken from the IDL documentation (doc/introduction.md) and idl basic type table",
 		"parser time and memory are property C07's business: a case slower than 10 s is skipped and counted under skipped_slow",
 	}
